@@ -52,10 +52,10 @@ DIV1000 = [2, 4, 5, 8, 10, 20, 25, 40, 50]
 
 def shards(tier, seed):
     q = tier == "quick"
-    out = [{"name": f"temp-grid-{k}", "kind": "temp", "k": k, "n": 450 if q else 15000, "budget_s": 70 if q else 780} for k in range(8)]
-    out += [{"name": f"temp-fit-{k}", "kind": "fit", "k": k, "n": 14 if q else 220, "budget_s": 60 if q else 780} for k in range(3)]
-    out += [{"name": f"std-synth-{k}", "kind": "synth", "k": k, "n": 30 if q else 1500, "budget_s": 60 if q else 780} for k in range(3)]
-    out += [{"name": f"std-real-{k}", "kind": "real", "k": k, "n": 16 if q else 400, "budget_s": 60 if q else 780} for k in range(2)]
+    out = [{"name": f"temp-grid-{k}", "kind": "temp", "k": k, "n": 450 if q else 15000, "budget_s": 240 if q else 840} for k in range(8)]
+    out += [{"name": f"temp-fit-{k}", "kind": "fit", "k": k, "n": 14 if q else 220, "budget_s": 240 if q else 840} for k in range(3)]
+    out += [{"name": f"std-synth-{k}", "kind": "synth", "k": k, "n": 30 if q else 1500, "budget_s": 240 if q else 840} for k in range(3)]
+    out += [{"name": f"std-real-{k}", "kind": "real", "k": k, "n": 16 if q else 400, "budget_s": 240 if q else 840} for k in range(2)]
     return out
 
 
